@@ -112,6 +112,10 @@ def jobs_for(tier):
     return jobs
 
 
+class StopPath(BaseException):
+    """the path has produced its finding; exploring the (huge) domain of the size further is pointless"""
+
+
 def _hostile(ctx, obj, path='$'):
     """copy of a JSON-compatible object with every integer replaced by a fresh unconstrained one"""
     from pyfront import SymInt
@@ -177,8 +181,16 @@ def make_doc_harness(job):
             eng.index_limit = 8 * size + 64
 
             def large(expr, model):
+                # an allocation attack wants the size as large as the document allows: prefer such a model
+                for shift in (36, 33, 30, 24):
+                    if expr.size() > shift + 1:
+                        big = eng.check_model(expr > (1 << shift))
+                        if big is not None:
+                            model = big
+                            break
                 ctx.violation('size-from-input-unbounded', 'an index/size/shift can exceed %d for a %d-octet document'
                               % (eng.index_limit, size), model=model, candidate=True)
+                raise StopPath()
             eng.on_large_index = large
             lc = LineCounter(budget(size))
             sys.settrace(lc)
@@ -186,6 +198,8 @@ def make_doc_harness(job):
                 try:
                     cj.ct._type.decode(doc)
                     outcome = 'value'
+                except StopPath:
+                    outcome = 'size-from-input-candidate'
                 except StepLimit:
                     outcome = 'steplimit'
                 except asn1tools.DecodeError:
@@ -199,6 +213,8 @@ def make_doc_harness(job):
                 eng.index_limit = None
                 eng.on_large_index = None
         ctx.note(outcome)
+        if outcome == 'size-from-input-candidate':
+            return
         if outcome == 'steplimit':
             ctx.violation('work-budget-exceeded', '> %d line events for a %d-octet document' % (budget(size), size))
             return
